@@ -1124,7 +1124,13 @@ impl<E: Effect> Environment<E> {
         if let Some(pending) = self.pending_awaits.get_mut(&awaiter) {
             // This is part of an initial await - collect the response
             if let Some(worker_id) = sender_worker_id {
-                pending.responses.insert(worker_id, results.clone());
+                // A worker can answer twice before the other workers have (a target of its
+                // completes in between): merge, so the earlier answer's results are kept.
+                pending
+                    .responses
+                    .entry(worker_id)
+                    .or_default()
+                    .extend(results.clone());
                 pending.expected_workers.remove(&worker_id);
 
                 // Check if all workers have responded
@@ -2046,6 +2052,53 @@ mod tests {
         // The child ids now index the REPL program and resolve back to `'int`.
         assert_eq!(repl_program.get_types()[send], Type::Integer);
         assert_eq!(repl_program.get_types()[receive], Type::Integer);
+    }
+
+    /// A worker handle that only records the commands it is sent.
+    struct Recorder(std::sync::Arc<std::sync::Mutex<Vec<Command<TestEffect>>>>);
+
+    impl WorkerHandle<TestEffect> for Recorder {
+        fn send(&mut self, command: Command<TestEffect>) -> Result<(), EnvironmentError> {
+            self.0.lock().unwrap().push(command);
+            Ok(())
+        }
+        fn try_recv(&mut self) -> Result<Option<Event<TestEffect>>, EnvironmentError> {
+            Ok(None)
+        }
+    }
+
+    /// While an initial await still waits for another worker, a worker that answers a second
+    /// time (a target of its completed in between) must not lose what it reported first.
+    #[test]
+    fn second_answer_of_a_worker_keeps_its_first() {
+        let sent = std::sync::Arc::new(std::sync::Mutex::new(Vec::new()));
+        let mut env: Environment<TestEffect> = Environment::new(vec![
+            Box::new(Recorder(sent.clone())),
+            Box::new(Recorder(Default::default())),
+        ]);
+        // Awaiter 0 and targets 1, 3 live on worker 0; target 2 on worker 1.
+        env.process_router.extend([(0, 0), (1, 0), (3, 0), (2, 1)]);
+        env.handle_await_processes(0, vec![1, 3, 2]).unwrap();
+        let done = |n: i32| Some(Ok((Value::Integer(n.into()), vec![])));
+        for results in [
+            vec![(1, done(11)), (3, None)],
+            vec![(3, done(33))],
+            vec![(2, None)],
+        ] {
+            env.handle_process_results(0, results.into_iter().collect())
+                .unwrap();
+        }
+        let sent = sent.lock().unwrap();
+        let Some(Command::UpdateAwaitResults { results, .. }) = sent.last() else {
+            panic!("expected the merged results to be sent to the awaiter's worker");
+        };
+        let integer = |target| match results.get(target) {
+            Some(Some(Ok((Value::Integer(n), _)))) => n.to_string(),
+            other => panic!("no integer result for {target}: {other:?}"),
+        };
+        assert_eq!(integer(&1), "11");
+        assert_eq!(integer(&3), "33");
+        assert!(matches!(results.get(&2), Some(None)));
     }
 }
 
